@@ -71,6 +71,8 @@ type Log = Rc<RefCell<Vec<(usize, i64, &'static str)>>>;
 
 #[derive(Clone, Copy, PartialEq, Debug)]
 pub enum OpKind {
+    /// an operator fed by another operator: values only
+    Chained,
     /// single input, user function called for added/changed keys
     Diff,
     Fold { update: bool },
@@ -168,11 +170,10 @@ fn op<T: Value>(
 /// the operators every map type supports
 fn build_generic<M>(ops: &mut Vec<OpRec>, log: &Log, input: &Incr<M>)
 where
-    M: TestMap + SymmetricFoldMap<i64, i64> + SymmetricMapMap<i64, i64>,
-    M::OutputMap<i64>: TestMap,
+    M: TestMap + SymmetricFoldMap<i64, i64> + SymmetricMapMap<i64, i64, OutputMap<i64> = M>,
 {
     let n = M::NAME;
-    let conv = |m: &M::OutputMap<i64>| Out::Map(m.to_b());
+    let conv = |m: &M| Out::Map(m.to_b());
     {
         let (l, id) = (log.clone(), ops.len());
         let node = input.incr_map(move |v: &i64| {
@@ -211,6 +212,18 @@ where
         });
         op(ops, format!("incr_filter_mapi<{n}>"), OpKind::Diff, "C15", node, conv, |i| {
             Out::Map(i.left.iter().filter_map(|(k, v)| f_filter_mapi(*k, *v).map(|x| (*k, x))).collect())
+        });
+    }
+    {
+        let filtered = input.incr_filter_map(|v: &i64| f_filter(*v));
+        let node = filtered.incr_unordered_fold(0i64, |acc, k: &i64, v: &i64| acc + w(*k, *v), |acc, k: &i64, v: &i64| acc - w(*k, *v), false);
+        op(ops, format!("incr_filter_map<{n}> -> incr_unordered_fold"), OpKind::Chained, "C15", node, |x: &i64| Out::Int(*x), |i| {
+            Out::Int(i.left.iter().filter_map(|(k, v)| f_filter(*v).map(|x| w(*k, x))).sum::<i64>())
+        });
+        let mapped = input.incr_filter_mapi(|k: &i64, v: &i64| f_filter_mapi(*k, *v));
+        let node = mapped.incr_mapi(|k: &i64, v: &i64| k + v);
+        op(ops, format!("incr_filter_mapi<{n}> -> incr_mapi"), OpKind::Chained, "C15", node, conv, |i| {
+            Out::Map(i.left.iter().filter_map(|(k, v)| f_filter_mapi(*k, *v).map(|x| (*k, k + x))).collect())
         });
     }
     for revert in [false, true] {
@@ -275,13 +288,16 @@ fn perkey_expected(fam: usize, k: i64, v: i64, i: &Inputs) -> i64 {
             if v % 2 == 0 { i.alt + 1000 } else { i.outer * 2 + k }
         }
         3 => 5,
-        _ => i.outer + 7,
+        4 => i.outer / 2 + 7,
+        _ => {
+            if i.outer % 2 == 0 { v } else { i.alt * 100 }
+        }
     }
 }
 
 macro_rules! perkey_ops {
     ($ops:ident, $log:ident, $input:ident, $env:ident, $name:expr, $conv:expr) => {{
-        for fam in 0..5usize {
+        for fam in 0..6usize {
             for variant in 0..3usize {
                 // variant 0: incr_mapi_, 1: incr_filter_mapi_, 2: incr_mapi_cutoff (transparent cutoff)
                 if variant == 2 && fam > 1 {
@@ -311,10 +327,18 @@ macro_rules! perkey_ops {
                             })
                         }
                         3 => konst.clone(),
-                        _ => shared.clone(),
+                        4 => shared.clone(),
+                        _ => {
+                            // the per-key input is only connected while the outer switch is even
+                            let alt = alt.clone();
+                            outer.bind(move |o| {
+                                l2.borrow_mut().push((id, key, "inner"));
+                                if o % 2 == 0 { v.clone() } else { alt.map(|a| a * 100) }
+                            })
+                        }
                     }
                 };
-                let kind = OpKind::PerKey { uses_outer: fam == 1 || fam == 2 || fam == 4, ignores_input: fam >= 3 };
+                let kind = OpKind::PerKey { uses_outer: fam == 1 || fam == 2 || fam >= 4, ignores_input: fam == 3 || fam == 4 };
                 match variant {
                     0 => {
                         let node = $input.incr_mapi_(user);
@@ -407,8 +431,16 @@ fn inner(seed: u64, which: &str, out: &mut Outcome) {
     let vrc = st.var(Rc::new(cur.left.clone()));
     let vom = st.var(<OrdMap<i64, i64> as TestMap>::from_b(&cur.left));
     let vom_r = st.var(<OrdMap<i64, i64> as TestMap>::from_b(&cur.right));
+    if rng.chance(1, 2) {
+        // inputs that fire even when the map they carry did not change (as an upstream operator would)
+        vb.set_cutoff(Cutoff::Never);
+        vrc.set_cutoff(Cutoff::Never);
+        vom.set_cutoff(Cutoff::Never);
+        vb_r.set_cutoff(Cutoff::Never);
+        vom_r.set_cutoff(Cutoff::Never);
+    }
     let env = PerKeyEnv { outer: st.var(cur.outer), alt: st.var(cur.alt), shared: st.constant(0), konst: st.constant(5i64) };
-    let shared_src = env.outer.map(|o| o + 7);
+    let shared_src = env.outer.map(|o| o / 2 + 7);
     let env = PerKeyEnv { shared: shared_src, ..env };
     let mut ops: Vec<OpRec> = vec![];
     let ops_ref = &mut ops;
@@ -635,6 +667,7 @@ fn inner(seed: u64, which: &str, out: &mut Outcome) {
                     }
                     let outer_changed = prev.outer != cur.outer || prev.alt != cur.alt || o.outer_dirty;
                     let bad: Vec<&(i64, &'static str)> = match o.kind {
+                        OpKind::Chained => vec![],
                         OpKind::Diff | OpKind::Fold { .. } => mine.iter().filter(|e| e.0 >= 0 && !dl.contains(&e.0)).collect(),
                         OpKind::Merge => mine.iter().filter(|e| !dl.contains(&e.0) && !dr.contains(&e.0)).collect(),
                         OpKind::PerKey { uses_outer, .. } => mine
